@@ -83,6 +83,12 @@ def check_graph(ctx, G, tag, key):
     ctx.count("orbits_checked")
     if got_orb != want_orb or len(got_orb) != len(A.orbits):
         ctx.violation("orbits", wit, f"orbits {sorted(map(sorted, got_orb))} != exact {sorted(map(sorted, want_orb))}")
+    # non-default construction: without an anchor the analysis is still per component (swaps stay excluded)
+    A2 = Automorphism(G, anchor_largest_component=False)
+    ctx.count("no_anchor_variant_checked")
+    if A2.n_automorphisms != want_n or {frozenset(o) for o in A2.orbits} != want_orb:
+        ctx.violation("automorphism-no-anchor", wit, f"anchor_largest_component=False: {A2.n_automorphisms} automorphisms / orbits {sorted(map(sorted, A2.orbits))}, "
+                      f"per-component group has {want_n} / {sorted(map(sorted, want_orb))}")
     if len(comps) > 1:
         anc = A.anchor_component
         if anc is None or frozenset(anc) not in {frozenset(c.nodes) for c in comps} or len(anc) != max(len(c) for c in comps):
